@@ -47,9 +47,19 @@ impl Deduplicator {
                 // result connected to it), redirecting that witness would detach it from this
                 // op's relation: keep the op, it then acts as the equality check.
                 if !self.referenced.contains(&dup_out) {
+                    #[cfg(p3r_verif)]
+                    crate::verif_trace::emit(&alloc::format!(
+                        "\"ev\":\"dedup_remove\",\"dup\":{},\"root\":{},\"referenced\":false",
+                        dup_out.0, root.0
+                    ));
                     self.rewrite.insert(dup_out, root);
                     continue;
                 }
+                #[cfg(p3r_verif)]
+                crate::verif_trace::emit(&alloc::format!(
+                    "\"ev\":\"dedup_keep\",\"dup\":{},\"root\":{},\"referenced\":true",
+                    dup_out.0, root.0
+                ));
             }
 
             self.mark_referenced(&op);
